@@ -120,6 +120,15 @@ func readSparse(path string) ([]byte, int64, uint64, error) {
 	return out, size, ino, nil
 }
 
+// rel: path of a file (or directory) relative to the scratch directory: "000001.vlog", "v/000001.vlog",
+// "." / "v" for the directories themselves.
+func (cr *crashRun) rel(path string) string {
+	if r, err := filepath.Rel(cr.dir, path); err == nil && !strings.HasPrefix(r, "..") {
+		return r
+	}
+	return filepath.Base(path)
+}
+
 func (cr *crashRun) snapshot() {
 	ents, err := os.ReadDir(cr.dir)
 	if err != nil {
@@ -130,15 +139,27 @@ func (cr *crashRun) snapshot() {
 	for _, e := range cr.events {
 		s.Started = append(s.Started, e.Started)
 	}
+	var names []string
 	for _, e := range ents {
 		if e.IsDir() {
+			// a separate ValueDir lives in the sub-directory "v" of the scratch directory
+			if sub, err := os.ReadDir(filepath.Join(cr.dir, e.Name())); err == nil {
+				for _, se := range sub {
+					if !se.IsDir() {
+						names = append(names, e.Name()+"/"+se.Name())
+					}
+				}
+			}
 			continue
 		}
-		data, size, ino, err := readSparse(filepath.Join(cr.dir, e.Name()))
+		names = append(names, e.Name())
+	}
+	for _, n := range names {
+		data, size, ino, err := readSparse(filepath.Join(cr.dir, n))
 		if err != nil {
 			continue // vanished between ReadDir and open: cannot happen at quiescence
 		}
-		s.Files[e.Name()] = fileSnap{Ino: ino, Size: size, Blob: cr.blob(data)}
+		s.Files[n] = fileSnap{Ino: ino, Size: size, Blob: cr.blob(data)}
 	}
 	cr.snaps = append(cr.snaps, s)
 }
@@ -148,6 +169,9 @@ func (cr *crashRun) materialize(j *vlib.Job, img dirSnap) string {
 	d := freshDir(j)
 	for name, f := range img {
 		p := filepath.Join(d, name)
+		if strings.Contains(name, "/") {
+			_ = os.MkdirAll(filepath.Dir(p), 0o755)
+		}
 		data := cr.blobs[f.Blob]
 		fh, err := os.Create(p)
 		if err != nil {
@@ -242,6 +266,16 @@ func mapString(m map[string]string) string {
 	return b.String()
 }
 
+// valueDirOf: where the value directory of an image rooted at dir lives (the "v" sub-directory when the
+// run was made with a separate ValueDir).
+func valueDirOf(dir string, o Options) string {
+	if o.ValueDir != o.Dir {
+		_ = os.MkdirAll(filepath.Join(dir, "v"), 0o755)
+		return filepath.Join(dir, "v")
+	}
+	return dir
+}
+
 func crashOpts(dir string, j *vlib.Job) Options {
 	o := smallOpts(dir)
 	o.MemTableSize = 16 << 10
@@ -253,6 +287,9 @@ func crashOpts(dir string, j *vlib.Job) Options {
 	o.BaseLevelSize = 2 << 10
 	o.LevelSizeMultiplier = 2
 	o.SyncWrites = j.Bool("sync_writes", false)
+	if j.Bool("separate_value_dir", false) {
+		o.ValueDir = filepath.Join(dir, "v") // value log and DISCARD in their own directory, with its own fsyncs
+	}
 	if j.Bool("encrypt", false) {
 		o.EncryptionKey = bytes.Repeat([]byte{0x11}, 16)
 		o.BlockCacheSize = 1 << 20
@@ -377,11 +414,11 @@ func runHistory(t *testing.T, j *vlib.Job, hist []string) *crashRun {
 			ev := &ioEvent{Op: op}
 			if op == "rename" {
 				ps := strings.SplitN(path, "\x00", 2)
-				ev.Path, ev.Path2 = filepath.Base(ps[0]), filepath.Base(ps[1])
+				ev.Path, ev.Path2 = cr.rel(ps[0]), cr.rel(ps[1])
 			} else if op == "dirsync" {
-				ev.Path = "."
+				ev.Path = cr.rel(path) // "." or "v"
 			} else {
-				ev.Path = filepath.Base(path)
+				ev.Path = cr.rel(path)
 				_, err := os.Stat(path)
 				ev.Existed = err == nil
 			}
@@ -493,8 +530,16 @@ func (cr *crashRun) c10Images() []crashImage {
 					durContent[f.Ino] = durFile{f.Size, f.Blob}
 				}
 			case "dirsync":
-				durNames = map[string]uint64{}
+				inDir := func(n string) bool { return filepath.Dir(n) == ev.Path }
+				for n := range durNames {
+					if inDir(n) {
+						delete(durNames, n)
+					}
+				}
 				for n, f := range s.Files {
+					if !inDir(n) {
+						continue
+					}
 					durNames[n] = f.Ino
 					if _, ok := durContent[f.Ino]; !ok {
 						// metadata (size) travels with the directory entry; content was never synced
@@ -570,7 +615,7 @@ func recoverImage(t *testing.T, j *vlib.Job, cr *crashRun, img crashImage, ops [
 		dir := cr.materialize(j, img.Files)
 		defer os.RemoveAll(dir)
 		o := cr.opts
-		o.Dir, o.ValueDir = dir, dir
+		o.Dir, o.ValueDir = dir, valueDirOf(dir, o)
 		if oracle == "c07ro" {
 			// C07: a read-only open of ANY image (here: what a crash left behind), whether it
 			// succeeds or is refused, and reading through it, changes no file
@@ -1057,7 +1102,7 @@ func init() {
 				seen[sig] = true
 				dir := st.cr.materialize(x.j, s.Files)
 				o := st.cr.opts
-				o.Dir, o.ValueDir = dir, dir
+				o.Dir, o.ValueDir = dir, valueDirOf(dir, o)
 				db, err := Open(o)
 				if err != nil {
 					return "", fmt.Sprintf("snapshot %d: Open: %v", k, err), "open-failed/concurrent"
@@ -1116,6 +1161,10 @@ func init() {
 			o := crashOpts(x.dir, x.j)
 			o.NumMemtables = 5
 			o.ValueThreshold = 2400 // values stay inline: they are what fills the memtable
+			if x.j.Bool("vlog", false) {
+				o.ValueThreshold = 64
+				o.ValueLogMaxEntries = 1 // the log rotates once a request has taken the count above 1: after the first request of a batch that follows T1
+			}
 			// the memtable's size decides when it rotates: skiplist tower heights must not be random
 			hn := 0
 			y.VerifHeightFn = func() int { hn++; return 1 + hn%3 }
@@ -1123,10 +1172,15 @@ func init() {
 			st := &cc08State{cr: &crashRun{dir: x.dir, blobs: map[string][]byte{}, opts: o}}
 			st.names = []string{"T1", "T2", "T3"}
 			st.writes = []map[string]string{{"c": "T1"}, {"a": string(val("T2-", 2100)), "b": "T2"}, {"b": "T3", "d": "T3"}}
+			if x.j.Bool("vlog", false) {
+				// value-log variant: every transaction carries one value-log value and the value log
+				// rotates in the middle of a batch of two requests
+				st.writes = []map[string]string{{"c": string(val("T1-", 150))}, {"a": string(val("T2-", 150)), "b": "T2"}, {"b": "T3", "d": string(val("T3-", 150))}}
+			}
 			st.acked = make([]bool, len(st.names))
 			x.state = st
 			// fill the memtable up to ~1-2 KiB below its limit: T2's 2100-byte value then fills it
-			for i := 0; x.db.mt.sl.MemSize() < o.MemTableSize-2000; i++ {
+			for i := 0; !x.j.Bool("vlog", false) && x.db.mt.sl.MemSize() < o.MemTableSize-2000; i++ {
 				if err := x.db.Update(func(txn *Txn) error { return txn.Set([]byte(fmt.Sprintf("fill%03d", i)), val("f", 900)) }); err != nil {
 					panic(err)
 				}
@@ -1143,11 +1197,11 @@ func init() {
 				ev := &ioEvent{Op: op}
 				if op == "rename" {
 					ps := strings.SplitN(path, "\x00", 2)
-					ev.Path, ev.Path2 = filepath.Base(ps[0]), filepath.Base(ps[1])
+					ev.Path, ev.Path2 = st.cr.rel(ps[0]), st.cr.rel(ps[1])
 				} else if op == "dirsync" {
-					ev.Path = "."
+					ev.Path = st.cr.rel(path)
 				} else {
-					ev.Path = filepath.Base(path)
+					ev.Path = st.cr.rel(path)
 					_, err := os.Stat(path)
 					ev.Existed = err == nil
 				}
@@ -1255,7 +1309,7 @@ func init() {
 				seen[sig] = true
 				dir := st.cr.materialize(x.j, img.Files)
 				o := st.cr.opts
-				o.Dir, o.ValueDir = dir, dir
+				o.Dir, o.ValueDir = dir, valueDirOf(dir, o)
 				db, err := Open(o)
 				if err != nil {
 					_ = os.RemoveAll(dir)
